@@ -65,6 +65,38 @@ def r12a(fb, rep):
         rep.violation(R, "get-global-other-value", "get_global converts a value other than the binding it checked", b.where())
 
 
+def r12e(fb, rep):
+    R = "R12e"
+    rep.rule(R, "check_signature asks whether the actual type subsumes under the requested signature (not the reverse)")
+    outer = fb.body("gluon_check::check_signature")
+    inner = fb.body("gluon_check::check_signature_")
+    if outer is None or inner is None:
+        rep.anchor_lost(R, "gluon_check::check_signature / check_signature_")
+        return
+    sub = [c for c in inner.calls() if c.res.endswith("unify_type::subsumes")]
+    if not sub or len(sub[0].args) < 4:
+        rep.violation(R, "no-subsumes", "check_signature_ no longer calls unify_type::subsumes", inner.where())
+        return
+    s2 = flow.sources(inner, sub[0].args[2])
+    s3 = flow.sources(inner, sub[0].args[3])
+    ok_inner = ("arg", 3) in s2 and ("arg", 4) not in s2 and ("arg", 4) in s3 and ("arg", 3) not in s3 and \
+        flow.has_call(s3, lambda n: n.endswith("instantiate_generics"))
+    inner_calls = [c for c in outer.calls() if c.res == inner.id]
+    ok_outer = False
+    if inner_calls:
+        a2 = flow.sources(outer, inner_calls[0].args[2])
+        a3 = flow.sources(outer, inner_calls[0].args[3])
+        ok_outer = ("arg", 2) in a2 and ("arg", 3) not in a2 and ("arg", 3) in a3 and ("arg", 2) not in a3
+    # the verdict is the success of subsumes
+    isok = [c for c in inner.calls() if c.res.endswith("Result::<T, E>::is_ok")]
+    rs = flow.sources(inner, 0, through_calls=False)
+    ret_ok = bool(isok) and flow.has_call(rs, lambda n: n.endswith("is_ok")) and not any(s[0] in ("const", "op") for s in rs)
+    if ok_inner and ok_outer and ret_ok:
+        rep.ok(R, "check_signature(signature, actual) = subsumes(signature, instantiate(actual)).is_ok()")
+    else:
+        rep.violation(R, "signature-direction", "check_signature no longer tests `actual` against `signature` in that direction (inner=%s outer=%s verdict=%s)" % (ok_inner, ok_outer, ret_ok), inner.where())
+
+
 def r12b(fb, rep):
     R = "R12b"
     rep.rule(R, "run_expr hands T::make_type to the type checker before converting the result")
@@ -178,6 +210,7 @@ def run(fb, rep, tier, cfg):
     rep.assumptions += ["Getable impls are compositional: they convert at types fixed by the outer, checked, type",
                         "entries of tables/getable_entrypoints.json are reviewed by hand, one symbol each"]
     r12a(fb, rep)
+    r12e(fb, rep)
     r12b(fb, rep)
     r12c(fb, rep)
     r12d(fb, rep)
